@@ -10,7 +10,7 @@ payload = {"mode": "nojit" | "checked" | "default", "per_child": n, "cases": [ca
            reach the worker
 case = {"rows","cols","ph","pw","reset_via": "charge"|"detector",
         "ops":[{"op": "arr","a":[[..]],"dt":"f8"|"f4"|"f2"} | {"op":"cl","cs":[[n,v,h],..]} |
-        {"op":"read"} (.array) | {"op":"xr"} (.to_xarray()) | {"op":"frame"} | {"op":"rmall"} | {"op":"rm","ids":[..]} |
+        {"op":"read"} (.array) | {"op":"xr"} (.to_xarray()) | {"op":"np"} (np.asarray(charge)) | {"op":"frame"} | {"op":"rmall"} | {"op":"rm","ids":[..]} |
         {"op":"reset"} (charge.empty() or detector.empty())]}
 result per case = {"trace": [{"o": "unit"|"raise"|"corrupt"|"arr", "m": [[float]], "f": [[id,n,v,h],..]}, ...],
                    "crashed": bool}
@@ -59,8 +59,9 @@ def run_case(case, stop_on_corrupt=True):
                     init_z_position=z.copy(), init_ver_velocity=z.copy(), init_hor_velocity=z.copy(),
                     init_z_velocity=z.copy(),
                 )
-            elif k in ("read", "xr"):
-                m = np.array(ch.array if k == "read" else ch.to_xarray().values, dtype=float, copy=True)
+            elif k in ("read", "xr", "np"):
+                src = ch.array if k == "read" else (ch.to_xarray().values if k == "xr" else np.asarray(ch))
+                m = np.array(src, dtype=float, copy=True)
                 if m.ndim != 2:
                     rec = {"o": "raise", "cls": f"ndim{m.ndim}"}
                 else:
